@@ -704,7 +704,7 @@ pub fn render(m: &Model, l: &Layout) -> Vec<String> {
 fn free_text() -> BoxedStrategy<String> {
     prop_oneof![
         4 => "[A-Za-z0-9_: ]{1,12}",
-        2 => prop::sample::select(vec!["timeing: ", "a&b", "x<y", "\"quoted\"", "it's", "ünï€", " lead", "trail ", "a > b", "]]>", "DLT_TYPE_LOG", "DLT_LOG_WARN", "日本"]).prop_map(|s| s.to_string()),
+        2 => prop::sample::select(vec!["timeing: ", "a&b", "x<y", "\"quoted\"", "it's", "ünï€", " lead", "trail ", "a > b", "]]>", "DLT_TYPE_LOG", "DLT_LOG_WARN", "日本", "DLT_LOG", "DLT_TYPE_CONTROL", "DLT_CONTROL", "DLT_TYPE_LOG", "DLT_LOGé", "DLT_LOG_"]).prop_map(|s| s.to_string()),
         // single characters, also the ones text is usually wrapped in
         1 => prop::sample::select(vec!["\"", "'", "(", "[", "{", "%", "x", "é", "-"]).prop_map(|s| s.to_string()),
     ]
